@@ -17,7 +17,7 @@ SPEC = docsweep.Spec(
           "[note label][list marker] + a reference rendering of its source element's inline content, and free "
           "paragraphs keep document order; non-trivial = >= 4 inline ingredient kinds; distinct = package bytes"),
     opts=[(False, True), (False, False)],
-    edge=["tabstops_in_ppr"],
+    edge=["tabstops_in_ppr", "nested_tables"],
     project=project,
     oracle=oracles2.o_par_text,
     nontrivial=lambda fs: len(fs & {"tab", "br", "sym", "note_ref", "drawing", "pict", "checkbox", "ddlist", "math",
